@@ -219,6 +219,8 @@ def g_from(m, path, v):
     srcb = base_name(src.rstrip(">")) if src else None
     dv = deref(v)
     if ty == "String" and isinstance(dv, Str): return dv
+    if ty in ("HashSet", "IndexSet", "BTreeSet", "HashMap", "IndexMap", "BTreeMap") and isinstance(dv, (VecObj, Slice)):
+        return m.world.collect_list(m, list(as_list(dv)), ty)
     if ty == "Vec" and isinstance(dv, (VecObj, Slice)):
         return VecObj(list(dv.items)) if isinstance(dv, VecObj) else VecObj(dv.vec.items[dv.lo:dv.hi])
     if ty == srcb and ty is not None and (ty, "From") not in m.world.impl_pairs(): return v       # reflexive From<T> for T
@@ -705,6 +707,71 @@ def str_contains(m, s, p):
     return (chr(p) if isinstance(p, int) else m.str_concrete(p)) in m.str_concrete(s)
 
 
+def _pat(m, p):
+    p = deref(p)
+    if isinstance(p, int): return chr(p)
+    return m.str_concrete(p)
+
+
+def _str_list_it(m, parts):
+    return m.world.list_iter([Str(x) for x in parts])
+
+
+M["core::str::split"] = M["str::split"] = lambda m, s, p: _str_list_it(m, m.str_concrete(s).split(_pat(m, p)))
+M["core::str::rsplit"] = M["str::rsplit"] = lambda m, s, p: _str_list_it(m, m.str_concrete(s).split(_pat(m, p))[::-1])
+M["core::str::splitn"] = M["str::splitn"] = lambda m, s, n, p: _str_list_it(m, m.str_concrete(s).split(_pat(m, p), n - 1))
+M["core::str::split_whitespace"] = M["str::split_whitespace"] = lambda m, s: _str_list_it(m, m.str_concrete(s).split())
+M["core::str::lines"] = M["str::lines"] = lambda m, s: _str_list_it(m, m.str_concrete(s).splitlines())
+M["core::str::chars"] = M["str::chars"] = lambda m, s: m.world.list_iter([ord(c) for c in m.str_concrete(s)])
+M["core::str::bytes"] = M["str::bytes"] = lambda m, s: m.world.list_iter(list(m.str_concrete(s).encode()))
+M["core::str::char_indices"] = M["str::char_indices"] = lambda m, s: m.world.list_iter([TUP(i, ord(c)) for i, c in enumerate(m.str_concrete(s))])
+M["core::str::replace"] = M["str::replace"] = lambda m, s, a, b: Str(m.str_concrete(s).replace(_pat(m, a), m.str_concrete(b)))
+M["core::str::trim_start_matches"] = M["str::trim_start_matches"] = lambda m, s, p: Str(_trim_start(m.str_concrete(s), _pat(m, p)))
+M["core::str::trim_end_matches"] = M["str::trim_end_matches"] = lambda m, s, p: Str(_trim_end(m.str_concrete(s), _pat(m, p)))
+M["core::str::trim_matches"] = M["str::trim_matches"] = lambda m, s, p: Str(_trim_end(_trim_start(m.str_concrete(s), _pat(m, p)), _pat(m, p)))
+M["core::str::trim_start"] = M["str::trim_start"] = lambda m, s: Str(m.str_concrete(s).lstrip())
+M["core::str::trim_end"] = M["str::trim_end"] = lambda m, s: Str(m.str_concrete(s).rstrip())
+M["core::str::is_char_boundary"] = lambda m, s, i: True
+M["core::str::find"] = M["str::find"] = lambda m, s, p: (lambda i: SOME(i) if i >= 0 else NONE())(m.str_concrete(s).find(_pat(m, p)))
+
+
+def _trim_start(s, p):
+    while p and s.startswith(p): s = s[len(p):]
+    return s
+
+
+def _trim_end(s, p):
+    while p and s.endswith(p): s = s[:-len(p)]
+    return s
+
+
+@model("core::str::split_once", "str::split_once")
+def str_split_once(m, s, p):
+    t, q = m.str_concrete(s), _pat(m, p)
+    i = t.find(q)
+    return SOME(TUP(Str(t[:i]), Str(t[i + len(q):]))) if i >= 0 else NONE()
+
+
+@model("core::str::strip_prefix", "str::strip_prefix")
+def str_strip_prefix(m, s, p):
+    t, q = m.str_concrete(s), _pat(m, p)
+    return SOME(Str(t[len(q):])) if t.startswith(q) else NONE()
+
+
+@model("core::str::strip_suffix", "str::strip_suffix")
+def str_strip_suffix(m, s, p):
+    t, q = m.str_concrete(s), _pat(m, p)
+    return SOME(Str(t[:len(t) - len(q)])) if q and t.endswith(q) else (SOME(Str(t)) if not q else NONE())
+
+
+for _n, _f in (("is_ascii_digit", str.isdigit), ("is_alphabetic", str.isalpha), ("is_ascii_alphabetic", str.isalpha), ("is_alphanumeric", str.isalnum),
+               ("is_ascii_alphanumeric", str.isalnum), ("is_whitespace", str.isspace), ("is_ascii_whitespace", str.isspace), ("is_uppercase", str.isupper),
+               ("is_ascii_uppercase", str.isupper), ("is_lowercase", str.islower), ("is_ascii_lowercase", str.islower)):
+    M[f"core::char::methods::{_n}"] = M[f"char::{_n}"] = (lambda f: lambda m, c: f(chr(deref(c))))(_f)
+M["core::char::methods::to_ascii_lowercase"] = M["char::to_ascii_lowercase"] = lambda m, c: ord(chr(deref(c)).lower())
+M["core::char::methods::to_ascii_uppercase"] = M["char::to_ascii_uppercase"] = lambda m, c: ord(chr(deref(c)).upper())
+
+
 @model("core::str::eq_ignore_ascii_case", "str::eq_ignore_ascii_case")
 def str_eq_ic(m, a, b): return m.str_concrete(a).lower() == m.str_concrete(b).lower()
 
@@ -762,7 +829,9 @@ def g_minmax(m, path, a, b):
     return a if c <= 0 else b
 
 
-M["std::cmp::max"] = lambda m, a, b: b if cmp_values(m, a, b) <= 0 else a
+M["core::bool::then"] = M["bool::then"] = lambda m, b, f: SOME(m.call_value(f, [])) if m.branch_bool(b) else NONE()
+M["core::bool::then_some"] = M["bool::then_some"] = lambda m, b, v: SOME(v) if m.branch_bool(b) else NONE()
+M["std::cmp::max"] =lambda m, a, b: b if cmp_values(m, a, b) <= 0 else a
 M["std::cmp::min"] = lambda m, a, b: a if cmp_values(m, a, b) <= 0 else b
 M["std::cmp::Ordering::is_eq"] = lambda m, o: o.tag == 1
 M["std::cmp::Ordering::then_with"] = lambda m, o, f: o if o.tag != 1 else m.call_value(f, [])
@@ -807,15 +876,24 @@ def _as_int(v, ty):
     """mathematical integer (z3 Int or python int) of a machine integer of type ty"""
     from machine import INT_BITS
     bits, signed = INT_BITS[ty], ty.startswith("i")
-    if is_sym(v): return z3.BV2Int(v, signed)
+    if is_sym(v):
+        # exact integer value as a WIDE signed bit-vector (no BV2Int: keeps the queries in QF_BV)
+        return z3.SignExt(WIDE - bits, v) if signed else z3.ZeroExt(WIDE - bits, v)
     return v - (1 << bits) if signed and v >> (bits - 1) else v
+
+
+WIDE = 264          # enough for the exact product of two 128-bit values
+
+
+def _wide(x):
+    return x if is_sym(x) else z3.BitVecVal(x, WIDE)
 
 
 def _fits(r, ty):
     from machine import INT_BITS
     bits, signed = INT_BITS[ty], ty.startswith("i")
     lo, hi = (-(1 << (bits - 1)), (1 << (bits - 1)) - 1) if signed else (0, (1 << bits) - 1)
-    if is_sym(r): return z3.And(r >= lo, r <= hi)
+    if is_sym(r): return z3.And(r >= z3.BitVecVal(lo, WIDE), r <= z3.BitVecVal(hi, WIDE))       # signed comparisons on the wide vector
     return lo <= r <= hi
 
 
@@ -866,7 +944,102 @@ def g_try_into(m, path, v):
     return m.call_path(f"<{tgt} as TryFrom<{src}>>::try_from", [v])
 
 
-M["core::num::saturating_sub"] = lambda m, a, b: max(0, a - b)
+def _num1(fn):
+    def f(m, path, a):
+        from machine import INT_BITS
+        ty = _int_ty(path)
+        return fn(m, a, ty, INT_BITS[ty], ty.startswith("i"))
+    f.wants_path = True
+    return f
+
+
+def _unsigned_abs(m, a, ty, bits, signed):
+    if is_sym(a): return z3.If(a < 0, -a, a)          # bit pattern of |a| as unsigned (i64::MIN -> 2^63)
+    v = a - (1 << bits) if a >> (bits - 1) else a
+    return abs(v) & ((1 << bits) - 1)
+
+
+def _wrapping_neg(m, a, ty, bits, signed):
+    if is_sym(a): return -a
+    return (-a) & ((1 << bits) - 1)
+
+
+def _abs(m, a, ty, bits, signed):
+    if is_sym(a):
+        m.finding("assert:attempt to negate with overflow (abs)", m.where(), a == z3.BitVecVal(1 << (bits - 1), bits))
+        return z3.If(a < 0, -a, a)
+    v = a - (1 << bits) if a >> (bits - 1) else a
+    return abs(v) & ((1 << bits) - 1)
+
+
+M["core::num::unsigned_abs"] = _num1(_unsigned_abs)
+M["core::num::wrapping_neg"] = _num1(_wrapping_neg)
+M["core::num::abs"] = _num1(_abs)
+M["core::num::is_negative"] = _num1(lambda m, a, ty, bits, signed: (a < 0) if is_sym(a) else bool(a >> (bits - 1)))
+M["core::num::is_positive"] = _num1(lambda m, a, ty, bits, signed: (a > 0) if is_sym(a) else (a != 0 and not (a >> (bits - 1))))
+M["core::num::count_ones"] = _num1(lambda m, a, ty, bits, signed: bin(a).count("1"))
+M["core::num::leading_zeros"] = _num1(lambda m, a, ty, bits, signed: bits - a.bit_length())
+M["core::num::trailing_zeros"] = _num1(lambda m, a, ty, bits, signed: (bits if a == 0 else (a & -a).bit_length() - 1))
+
+
+def _wrapping(op):
+    def f(m, path, a, b):
+        return m.binop(op, a, b, _int_ty(path))
+    f.wants_path = True
+    return f
+
+
+for _op in ("add", "sub", "mul"):
+    M[f"core::num::wrapping_{_op}"] = _wrapping(_op.capitalize())
+
+
+def _saturating(op):
+    def f(m, path, a, b):
+        from machine import INT_BITS
+        ty = _int_ty(path)
+        bits, signed = INT_BITS[ty], ty.startswith("i")
+        lo, hi = (-(1 << (bits - 1)), (1 << (bits - 1)) - 1) if signed else (0, (1 << bits) - 1)
+        r = {"Add": lambda x, y: x + y, "Sub": lambda x, y: x - y, "Mul": lambda x, y: x * y}[op](_as_int(a, ty), _as_int(b, ty))
+        w = m.binop(op, a, b, ty)
+        if is_sym(r):
+            return z3.If(r < lo, z3.BitVecVal(lo & ((1 << bits) - 1), bits), z3.If(r > hi, z3.BitVecVal(hi, bits), w))
+        return (lo if r < lo else hi if r > hi else r) & ((1 << bits) - 1)
+    f.wants_path = True
+    return f
+
+
+for _op in ("add", "sub", "mul"):
+    M[f"core::num::saturating_{_op}"] = _saturating(_op.capitalize())
+
+
+def _overflowing(op):
+    def f(m, path, a, b):
+        ty = _int_ty(path)
+        r = {"Add": lambda x, y: x + y, "Sub": lambda x, y: x - y, "Mul": lambda x, y: x * y}[op](_as_int(a, ty), _as_int(b, ty))
+        fits = _fits(r, ty)
+        return TUP(m.binop(op, a, b, ty), neg(fits) if not is_sym(fits) else z3.Not(fits))
+    f.wants_path = True
+    return f
+
+
+for _op in ("add", "sub", "mul"):
+    M[f"core::num::overflowing_{_op}"] = _overflowing(_op.capitalize())
+
+
+def num_const(path):
+    """`core::num::<impl i64>::MIN` style associated constants"""
+    import re as _re
+    from machine import INT_BITS
+    mm = _re.match(r"^core::num::<impl (\w+)>::(MIN|MAX|BITS)$", path.strip())
+    if not mm or mm.group(1) not in INT_BITS: return None
+    ty, which = mm.group(1), mm.group(2)
+    bits, signed = INT_BITS[ty], ty.startswith("i")
+    if which == "BITS": return bits
+    if which == "MAX": return (1 << (bits - 1)) - 1 if signed else (1 << bits) - 1
+    return (1 << (bits - 1)) if signed else 0          # two's complement bit pattern of MIN
+
+
+M["core::num::saturating_sub_legacy"] = lambda m, a, b: max(0, a - b)
 M["core::num::wrapping_add"] = lambda m, a, b: (a + b) & ((1 << 64) - 1)
 M["NonZero::new"] = lambda m, v: SOME(v) if v != 0 else NONE()
 M["NonZero::get"] = lambda m, v: v
